@@ -205,7 +205,7 @@ PROFILES = {
 }
 
 SIZES = {  # (sim traces per worker, depth, OneIn, sim timeout s, mc timeout s)
-    "quick": dict(num=40, depth=40, onein=12, simt=60, mct=900, maxbeh=1200, rich=120),
+    "quick": dict(num=40, depth=40, onein=12, simt=120, mct=900, maxbeh=1200, rich=120),
     "thorough": dict(num=250, depth=60, onein=12, simt=420, mct=3000, maxbeh=9000, rich=1500),
 }
 
@@ -246,7 +246,12 @@ def simulate(c, d, seed, size, label):
                          simulate="num=%d" % size["num"], depth=size["depth"] + 2, seed=seed, workers=min(8, common.NCPU))
     if res.error:
         raise common.ToolError("simulation %s: %s\n%s" % (label, res.error, res.out[-2000:]))
-    return parse_beh(res.out)
+    behs = parse_beh(res.out)
+    if not behs and not size.get("_retry"):
+        # nothing printed within the time cap (a heavily loaded machine, or behaviours that all end early):
+        # once more with four times the cap and every candidate printed
+        return simulate(c, d, seed, dict(size, simt=size["simt"] * 4, onein=1, _retry=True), label + "r")
+    return behs
 
 
 class ProcessExit(Exception):
